@@ -707,6 +707,13 @@ def chunk_size_ok(repo):
     return n.bad == 0
 
 
+import re as _re
+_TOK = rb"[!#$%&'*+.^_`|~0-9A-Za-z-]+"
+_QS = rb'"(?:[\t \x21\x23-\x5b\x5d-\x7e\x80-\xff]|\\[\t \x21-\x7e\x80-\xff])*"'
+_ONE_EXT = rb"[ \t]*" + _TOK + rb"(?:[ \t]*=[ \t]*(?:" + _TOK + rb"|" + _QS + rb"))?"
+_CHUNK_EXT_ORACLE = _re.compile(_ONE_EXT + rb"(?:[ \t]*;" + _ONE_EXT + rb")*")      # specification side (RFC 9112 7.1.1), independent of the code's own pattern
+
+
 def chunk_size_table(ctx, rid):
     """evaluated: ChunkedReader.parse_chunk_size on chunk-size lines -- every single byte value in first, middle and last
     position of the size field, with and without chunk extension and BWS: accepted exactly when the field is 1*HEXDIG
@@ -724,6 +731,8 @@ def chunk_size_table(ctx, rid):
             size = size.rstrip(b" \t")
         if not size or any(c not in HEX for c in size):
             return "reject"
+        if sep and not _CHUNK_EXT_ORACLE.fullmatch(_ext):
+            return "reject"         # RFC 9112 7.1.1: what follows the ';' is ext-name [ "=" ext-val ] *( ";" ... ), with BWS around
         n = int(size, 16)
         return (0, None) if n == 0 else (n, rest)
     fields = [b"0", b"1a", b"1A", b"ff", b"000", b"", b"0x1a", b"0X1", b"+1", b"-1", b"1_0", b" 1a", b"1a ", b"1a\t", b"\t1a", b"1 a", b"1g", b"g", b"1a\x00", b"\xb2", b"1\xb9",
@@ -812,7 +821,7 @@ def r4(ctx):
                                   "`%s`: search() is only acceptable as reject-if-found (true branch must raise)" % norm(c), "reject-if-found")
                     else:
                         ctx.bad("C01.R4", key(f, norm(c)), site(f, c), "`%s`: re.match() accepts any string with a valid prefix; validators must use fullmatch" % norm(c))
-                    ctx.check("C01.R4", "$" not in rx.pattern.replace("\\$", ""), key(f, "dollar|" + rq), site(f, c),
+                    ctx.check("C01.R4", not regexset.has_dollar_anchor(rx.pattern, rx.flags), key(f, "dollar|" + rq), site(f, c),
                               "pattern %r uses '$', which also matches before a trailing LF" % rx.pattern, "no '$' anchor")
                 # -- case mapping before validation
                 if isinstance(c.func, ast.Attribute) and c.func.attr in ("upper", "lower", "casefold") and isinstance(c.func.value, (ast.Name, ast.Attribute)):
